@@ -116,8 +116,11 @@ def tokens_fn(text):
         raise AnchorLost("expand_mechdown_include_tokens: parameter list changed")
     b, mh = common(sig, body, ["source", "canonical_path", "active_set"], TOK_LOCALS, {"canonical_path"})
     src = mh.group(1)
+    # a loop-invariant computation hoisted above the loop (`let parent = parent_or_dot(canonical_path);`): its defining fact goes into the invariant
+    hoisted = "".join("      %s == parent_of(*canonical_path),\n" % m.group(1) for m in re.finditer(r"let\s+(\w+)\s*=\s*parent_or_dot\(\s*canonical_path\s*\)\s*;", b[:mh.start()]))
+    inv = TOK_INV.replace("    decreases", hoisted + "    decreases") if hoisted else TOK_INV
     hdr = ("let lines_ = split_inclusive_nl(&%s); let mut li_: usize = 0;\n  let ghost ls = lines(%s.v@);\n  let ghost act = active_set@;\n"
-           "  while li_ < lines_.len()\n%s  {\n    let line = &lines_[li_]; li_ += 1;\n%s" % (src, src, TOK_INV, TOK_FIRST))
+           "  while li_ < lines_.len()\n%s  {\n    let line = &lines_[li_]; li_ += 1;\n%s" % (src, src, inv, TOK_FIRST))
     end = match_brace(b, mh.end() - 1)
     b = b[:mh.start()] + hdr + b[mh.end():end] + "\n  proof { assert(ls.subrange(0, ls.len() as int) =~= ls); }\n" + b[end:]
     b, n = re.subn(r"\bexpand_mechdown_includes_recursive\(", "expand_mechdown_includes_recursive_rec(", b)              # N5
